@@ -33,6 +33,27 @@ WEXPORT int64_t w_parse_ds(const uint8_t* text, size_t n, uint32_t want_mask, ui
   }
   W_CATCH_ALL
 }
+// parse_data_string on a std::string that REFERS to the caller's buffer instead of copying it: the parser walks s.c_str(), and
+// with an ordinary short std::string that is the 16-byte small-string buffer inside the object, where an overrun past the NUL
+// stays inside the object (invisible to CBMC's pointer checks and to ASan). Here the string representation {pointer, length,
+// capacity} (libstdc++ layout, a valid "heap" state: pointer != local buffer, capacity == length) points at the caller's
+// exact-size object text[0..n] (text[n] == 0 is the caller's duty), so one byte past the terminator is outside every object.
+// The object is only ever used as `const std::string&` and never destroyed.
+struct WStrRep { const char* p; size_t len; size_t cap; size_t unused; };
+static_assert(sizeof(WStrRep) == sizeof(std::string), "libstdc++ std::string layout");
+WEXPORT int64_t w_parse_ds_inplace(const uint8_t* text, size_t n, uint32_t want_mask, uint64_t flags, uint8_t* out, size_t cap, uint8_t* mask_out, int64_t* mask_len) {
+  try {
+    alignas(std::string) unsigned char raw[sizeof(std::string)];
+    WStrRep rep{reinterpret_cast<const char*>(text), n, n, 0};
+    memcpy(raw, &rep, sizeof(rep));
+    const std::string& s = *reinterpret_cast<const std::string*>(raw);
+    std::string mask;
+    std::string r = parse_data_string(s, want_mask ? &mask : nullptr, flags);
+    *mask_len = w_copy_out(mask, mask_out, cap);
+    return w_copy_out(r, out, cap);
+  }
+  W_CATCH_ALL
+}
 // parse_data_string(format_data_string(data, mask, flags), &mask2): the round trip without leaving C++
 WEXPORT int64_t w_ds_roundtrip(const uint8_t* data, size_t n, const uint8_t* mask, uint32_t has_mask, uint64_t flags, uint8_t* out, size_t cap, uint8_t* mask_out, int64_t* mask_len) {
   try {
@@ -48,6 +69,30 @@ WEXPORT int64_t w_ds_roundtrip(const uint8_t* data, size_t n, const uint8_t* mas
 // format_data (hex dump core) on data cut into three iovecs [0,c1) [c1,c2) [c2,n) (any of them may be empty); everything the
 // function hands to write_data is appended to out. Returns the total length, W_CAPACITY if it does not fit.
 struct WSink { uint8_t* out; size_t cap; size_t pos; bool overflow; };
+// diff mode: the same, plus a previous buffer of the same size passed as the two iovecs [0,pc) [pc,n) (a partition unrelated
+// to the one of the data)
+WEXPORT int64_t w_format_data_diff(const uint8_t* data, const uint8_t* prev, size_t n, size_t c1, size_t c2, size_t pc, uint64_t start_address, uint64_t flags, uint8_t* out, size_t cap) {
+  try {
+    WSink sink{out, cap, 0, false};
+    WSink* sp = &sink;
+    struct iovec iovs[3], piovs[2];
+    iovs[0].iov_base = const_cast<uint8_t*>(data); iovs[0].iov_len = c1;
+    iovs[1].iov_base = const_cast<uint8_t*>(data) + c1; iovs[1].iov_len = c2 - c1;
+    iovs[2].iov_base = const_cast<uint8_t*>(data) + c2; iovs[2].iov_len = n - c2;
+    piovs[0].iov_base = const_cast<uint8_t*>(prev); piovs[0].iov_len = pc;
+    piovs[1].iov_base = const_cast<uint8_t*>(prev) + pc; piovs[1].iov_len = n - pc;
+    format_data([sp](const void* p, size_t len) {
+      const uint8_t* b = reinterpret_cast<const uint8_t*>(p);
+      for (size_t i = 0; i < len; i++) {
+        if (sp->pos < sp->cap) sp->out[sp->pos] = b[i]; else sp->overflow = true;
+        sp->pos++;
+      }
+    }, iovs, 3, start_address, piovs, 2, flags);
+    if (sink.overflow) return W_CAPACITY;
+    return static_cast<int64_t>(sink.pos);
+  }
+  W_CATCH_ALL
+}
 WEXPORT int64_t w_format_data(const uint8_t* data, size_t n, size_t c1, size_t c2, uint64_t start_address, uint64_t flags, uint8_t* out, size_t cap) {
   try {
     WSink sink{out, cap, 0, false};
